@@ -10,7 +10,8 @@
    (sent <= offered, which sendmmsg(2) guarantees). *)
 From Coq Require Import List NArith ZArith.
 Import ListNotations.
-From NV Require Import lib.Bytes gen.Consts_WriteBatch model.WriteBatch proofs.WriteBatch_proofs.
+From Coq Require Import Sorted.
+From NV Require Import lib.Bytes gen.Consts_WriteBatch model.WriteBatch proofs.WriteBatch_proofs model.SendBatch proofs.SendBatch_proofs.
 Open Scope N_scope.
 
 (* The limits as documented (regenerated from the compiled code on every run): 65000 bytes per superpacket;
@@ -73,6 +74,35 @@ Theorem C26_gso_monotone : forall cap gso maxSegs pkts orc,
 Proof. intros cap gso maxSegs pkts orc. destruct (write_batch_cap_spec cap gso maxSegs pkts orc) as (_ & _ & _ & _ & _ & H). exact H. Qed.
 Print Assumptions C26_gso_monotone.
 
+(* ---- the layer above: batch.SendBatch (Commit / Flush histories over one batchWriter) -----------------------
+   [send_batch cap gso maxSegs orc ops] = one record per Flush of the history ops: f_ids = ids (commit order
+   0,1,2,..) of the datagrams handed to WriteBatch, f_res = what WriteBatch did; accepted_ids = ids the kernel
+   accepted during that flush.  All histories, all oracles (one oracle for the whole history; the GSO flag carries
+   over between flushes). *)
+
+(* Every Flush hands over exactly the datagrams committed since the previous Flush (the queue is drained whether or
+   not WriteBatch returned an error): the flushes together hand over 0,1,2,.. once each, in commit order. *)
+Theorem C26_flush_drains : forall cap gso maxSegs orc ops,
+  flat_map f_ids (send_batch cap gso maxSegs orc ops) = seq 0 (handed 0 ops).
+Proof. exact sb_drains. Qed.
+Print Assumptions C26_flush_drains.
+
+(* Over the whole history no datagram is accepted by the kernel twice, and acceptance follows commit order. *)
+Theorem C26_history_once : forall cap gso maxSegs orc ops,
+  NoDup (flat_map accepted_ids (send_batch cap gso maxSegs orc ops)) /\
+  StronglySorted lt (flat_map accepted_ids (send_batch cap gso maxSegs orc ops)).
+Proof. intros; split; [apply sb_once|apply sb_order]. Qed.
+Print Assumptions C26_history_once.
+
+(* Every Flush: what the kernel accepted was handed over by this very Flush, the count Flush reports (with or
+   without an error) is the number of datagrams accepted during it, and it terminates. *)
+Theorem C26_flush_count : forall cap gso maxSegs orc ops f, In f (send_batch cap gso maxSegs orc ops) ->
+  Forall (fun x => In x (f_ids f)) (accepted_ids f) /\
+  (forall n, r_out (f_res f) = Done n \/ r_out (f_res f) = NoProgress n -> n = N.of_nat (length (accepted_ids f))) /\
+  r_out (f_res f) <> OutOfFuel.
+Proof. exact sb_flush. Qed.
+Print Assumptions C26_flush_count.
+
 (* Not vacuous. oracle_ok is satisfiable; a run with an EIO on the superpacket: four packets, the kernel rejects
    the 4-segment superpacket with EIO, GSO goes off, the same packets are replayed one per slot and accepted. *)
 Example C26_oracle_ok_sat : oracle_ok (fun _ n => (Z.of_N n, 0)).
@@ -85,4 +115,15 @@ Example C26_nonvacuous :
   map (fun c => map (fun e => (e_start e, e_pkts e)) (c_offered c)) (r_calls r)
     = [[(0, 4)]; [(0, 1); (1, 1); (2, 1); (3, 1)]]%nat /\
   sent_indices (r_calls r) = [0; 1; 2; 3]%nat /\ r_out r = Done 4 /\ r_gso r = false.
+Proof. vm_compute. repeat split; reflexivity. Qed.
+
+(* A history in which Flush returns an error after the kernel took half of the batch: 4 datagrams, the kernel takes
+   2 and then makes no progress without an errno; 2 more are committed; the second Flush hands over only those. *)
+Example C26_history_nonvacuous :
+  let p := mkPkt 100 0 true in
+  let orc : oracle := fun k n => match k with 0%nat => (2%Z, 0) | 1%nat => (0%Z, 0) | _ => (Z.of_N n, 0) end in
+  let fs := send_batch 128 false 63 orc [Commit p; Commit p; Commit p; Commit p; Flush; Commit p; Commit p; Flush] in
+  map f_ids fs = [[0; 1; 2; 3]; [4; 5]]%nat /\
+  map accepted_ids fs = [[0; 1]; [4; 5]]%nat /\
+  map (fun f => r_out (f_res f)) fs = [NoProgress 2; Done 2].
 Proof. vm_compute. repeat split; reflexivity. Qed.
